@@ -23,6 +23,9 @@ func c19Run(r *simkit.Run) {
 	disk.NoLog = true
 
 	sys, err := openDBSys(disk, []int{0, 1, 100}[r.Draw("state_cache", 0, 2)])
+	if sys != nil {
+		sys.bwCache = []int{0, 1, 1, 100}[r.Draw("block_write_state_cache", 0, 3)] // 1: every Set evicts (deterministically); larger evicting sizes would evict in Go map order
+	}
 	if err != nil {
 		panic(err)
 	}
